@@ -374,6 +374,18 @@ pub fn realise(raw: &RawFacts, cfg: &GenCfg) -> Facts {
                     ps.push(q);
                 }
             }
+            // wide diamond: one hub, all middle terms directly below it, the last term below all
+            // middle terms (many direct parents, very few higher ancestors)
+            6 if n > 4 => {
+                let hub = first_free.saturating_sub(1);
+                if i == n - 1 {
+                    for q in hub + 1..i {
+                        ps.push(q);
+                    }
+                } else if i > hub && node.nparents > 0 {
+                    ps.push(hub);
+                }
+            }
             // random
             _ => {
                 for k in 0..(node.nparents as usize).min(3) {
@@ -664,6 +676,10 @@ pub fn labels(f: &Facts, m: &Model) -> Vec<&'static str> {
     }
     if m.children.iter().any(|p| p.len() > 30) {
         l.push("children>30");
+    }
+    if (0..m.len()).any(|i| m.parents[i].len() >= 5 && m.anc[i].len() - m.parents[i].len() <= m.parents[i].len() / 5) {
+        // direct parents outnumber the higher ancestors at least 5:1
+        l.push("many-parents-few-ancestors");
     }
     if (0..3).any(|k| m.direct[k].len() > 255) {
         l.push("records>255");
